@@ -74,12 +74,12 @@ NSTREAMS = 6
 # --------------------------------------------------------------------------- generation
 
 
-def _tree(depth: int, rich: bool) -> st.SearchStrategy[Any]:
-    """rich=True allows constants (right operands only) and min/max/consumption/production."""
+def _tree(depth: int, rich: bool, clip: bool = False) -> st.SearchStrategy[Any]:
+    """rich=True allows constants (right operands only) and min/max/consumption/production; clip adds push_clipper."""
     leaf = st.tuples(st.just("s"), st.integers(0, NSTREAMS - 1)).map(list)
     if depth <= 0:
         return leaf
-    sub = st.deferred(lambda: _tree(depth - 1, rich))
+    sub = st.deferred(lambda: _tree(depth - 1, rich, clip))
     binary = st.tuples(st.sampled_from(ARITH), sub, sub).map(list)
     options = [leaf, binary, binary, binary]
     if rich:
@@ -87,6 +87,10 @@ def _tree(depth: int, rich: bool) -> st.SearchStrategy[Any]:
         options.append(st.tuples(st.sampled_from(["+", "-", "*", "/", "max", "min"]), sub, const_q).map(list))
         options.append(st.tuples(st.sampled_from(["max", "min"]), sub, sub).map(list))
         options.append(st.tuples(st.sampled_from(["cons", "prod"]), sub).map(list))
+    if clip:
+        bound = st.one_of(st.none(), st.sampled_from([-2.0, 0.0, 1.0, 2.5]))
+        options.append(st.tuples(st.just("clip"), sub, bound, bound).map(
+            lambda t: ["clip", t[1], t[2], t[3]] if t[2] is None or t[3] is None or t[2] <= t[3] else ["clip", t[1], t[3], t[2]]))
     return st.one_of(options)
 
 
@@ -111,7 +115,7 @@ def _values(pid: str) -> st.SearchStrategy[Any]:
 def _case(draw: Any, pid: str, max_depth: int) -> dict[str, Any]:
     route = draw(st.sampled_from(["string", "string", "api", "api", "builder", "builder"]))
     depth = draw(st.integers(1, max_depth))
-    tree = draw(_tree(depth, rich=route != "string").filter(lambda t: t[0] != "s"))
+    tree = draw(_tree(depth, rich=route != "string", clip=route == "builder").filter(lambda t: t[0] != "s"))
     rows = draw(st.lists(st.lists(_values(pid), min_size=NSTREAMS, max_size=NSTREAMS), min_size=3, max_size=6))
     return {
         "route": route,
@@ -160,6 +164,17 @@ def _ref_inner(node: Any, vals: list[Fr | None]) -> tuple[Fr | None, Fr, bool]:
         if x is None:
             return None, m, d
         return (max(x, Fr(0)) if op == "cons" else max(-x, Fr(0))), m, d
+    if op == "clip":
+        x, m, d = _ref(node[1], vals)
+        lo, hi = node[2], node[3]
+        m = max(m, abs(Fr(lo)) if lo is not None else Fr(0), abs(Fr(hi)) if hi is not None else Fr(0))
+        if x is None:
+            return None, m, d
+        if lo is not None:
+            x = max(x, Fr(lo))
+        if hi is not None:
+            x = min(x, Fr(hi))
+        return x, m, d
     a, ma, da = _ref(node[1], vals)
     b, mb, db = _ref(node[2], vals)
     hasdiv = da or db or op == "/"
@@ -221,6 +236,8 @@ def _tokens(node: Any, parent: str | None = None, right: bool = False) -> list[t
         return [("c", node[1])]
     if op in ("cons", "prod"):
         return [("o", "(")] + [("o", "(")] + _tokens(node[1]) + [("o", ")"), ("o", "consumption" if op == "cons" else "production"), ("o", ")")]
+    if op == "clip":
+        return [("o", "("), ("o", "(")] + _tokens(node[1]) + [("o", ")"), ("clip", (node[2], node[3])), ("o", ")")]
     if op in ("max", "min"):
         return ([("o", "("), ("o", "(")] + _tokens(node[1]) + [("o", ")"), ("o", op), ("o", "(")] + _tokens(node[2])
                 + [("o", ")"), ("o", ")")])
@@ -238,12 +255,19 @@ class _Rig:
         self.keep: list[Any] = []
 
 
+def _children(node: Any) -> list[Any]:
+    if node[0] in ("s", "c"):
+        return []
+    if node[0] == "clip":
+        return [node[1]]
+    return list(node[1:])
+
+
 def _used(node: Any, out: set[int]) -> set[int]:
     if node[0] == "s":
         out.add(node[1])
-    elif node[0] != "c":
-        for child in node[1:]:
-            _used(child, out)
+    for child in _children(node):
+        _used(child, out)
     return out
 
 
@@ -271,6 +295,8 @@ def _build_builder(case: dict[str, Any], rig: _Rig) -> None:
             builder.push_metric(f"in{val}", chans[val].new_receiver(limit=100), nones_are_zeros=case["zeros"][val])
         elif kind == "c":
             builder.push_constant(float(val))
+        elif kind == "clip":
+            builder.push_clipper(val[0], val[1])
         else:
             builder.push_oper(val)
     rig.keep.append(chans)
@@ -321,19 +347,19 @@ def _build_api(case: dict[str, Any], rig: _Rig) -> None:
 
 
 def _depth(node: Any) -> int:
-    return 0 if node[0] in ("s", "c") else 1 + max(_depth(c) for c in node[1:])
+    return 0 if node[0] in ("s", "c") else 1 + max(_depth(c) for c in _children(node))
 
 
 def _has(node: Any, ops: set[str]) -> bool:
-    return node[0] in ops or (node[0] not in ("s", "c") and any(_has(c, ops) for c in node[1:]))
+    return node[0] in ops or any(_has(c, ops) for c in _children(node))
 
 
 def _interaction(node: Any) -> bool:
     if node[0] in ("s", "c"):
         return False
-    if node[0] in ARITH and any(c[0] in ARITH for c in node[1:]):
+    if node[0] in ARITH and any(c[0] in ARITH for c in _children(node)):
         return True
-    return any(_interaction(c) for c in node[1:])
+    return any(_interaction(c) for c in _children(node))
 
 
 def _second_of_minmax_missing(node: Any, missing: set[int]) -> bool:
@@ -341,7 +367,7 @@ def _second_of_minmax_missing(node: Any, missing: set[int]) -> bool:
         return False
     if node[0] in ("max", "min") and _used(node[2], set()) & missing:
         return True
-    return any(_second_of_minmax_missing(c, missing) for c in node[1:])
+    return any(_second_of_minmax_missing(c, missing) for c in _children(node))
 
 
 def _sample_value(x: Any) -> Any:
@@ -394,7 +420,9 @@ def run_case(case: Any, pid: str) -> Verdict:
     interaction = _interaction(tree)
     if interaction:
         v.labels.add("precedence_interaction")
-    rich = _has(tree, {"max", "min", "cons", "prod"})
+    rich = _has(tree, {"max", "min", "cons", "prod", "clip"})
+    if _has(tree, {"clip"}):
+        v.labels.add("has_clipper")
     if rich:
         v.labels.add("has_minmax_or_unary")
     nt13 = False
